@@ -21,7 +21,7 @@ LIMITS = [-1, 0, 1, 2, 3, 7, 127, 255]
 
 
 def tables(ctx):
-    nmax = 8 if ctx.tier == "quick" else 10
+    nmax = 8 if ctx.tier == "quick" else (12 if ctx.deep else 10)
     blk = core.blocks(ctx.seed)
     out = []
     for n in range(0, nmax + 1):
@@ -218,7 +218,7 @@ def run(ctx):
             cases.append(("0" * n, lim, 1, 1))
         # three-valued markings (valid / missing / failed) for the smaller tables
         nd = n if has_dict else n - 1
-        if nd <= (5 if ctx.tier == "quick" else 7):
+        if nd <= (5 if ctx.tier == "quick" else (8 if ctx.deep else 7)):
             for bits in itertools.product("+0!", repeat=nd):
                 if "!" not in bits:
                     continue
@@ -227,7 +227,7 @@ def run(ctx):
                     cases.append((mark, lim, 0, 1))
         for ch in core.chunks(cases, 1024):
             jobs.append((name, f, ch))
-    ctx.bounds = {"tables": len(tabs), "max_chunks": 8 if ctx.tier == "quick" else 10, "limits": LIMITS,
+    ctx.bounds = {"tables": len(tabs), "max_chunks": 8 if ctx.tier == "quick" else (12 if ctx.deep else 10), "limits": LIMITS,
                   "markings": "all 2^N per table, via the public scan flow, plus the no-scan state"}
     ctx.rule = ("case = (chunk table, marking, limit); non-trivial = request with >= 2 separate ranges")
     exact = 0
